@@ -196,3 +196,79 @@ def f6_files(tier):
                     out.append(('daqmx%d/%d,%d/S/x%d/%s' % (nbuf, na, nb, chunks, 'BE' if big else 'LE'), [d()]))
                     out.append(('daqmx%d/%d,%d/S,nometa/x%d/%s' % (nbuf, na, nb, chunks, 'BE' if big else 'LE'), [d(), NM()]))
     return out
+
+
+# ---------------------------------------------------------------------------------------
+# F3: cross-section of readable files (C03 / C09 / C10 / C15)
+# ---------------------------------------------------------------------------------------
+
+R8 = ['Int8', 'Int16', 'SingleFloat', 'Int64', 'TimeStamp', 'ComplexDoubleFloat', 'String', 'Boolean']
+
+
+def _full(t, n):
+    return ['FULL', 'String', n, 2 * n + 1] if t == 'String' else ['FULL', t, n]
+
+
+def f3_files(tier, daqmx=True, scaled=True):
+    """-> list of (name, history)"""
+    out = []
+    types = R8 if tier == 'thorough' else ['Int16', 'TimeStamp', 'String', 'ComplexDoubleFloat', 'Boolean']
+    # (1) type square, lengths {0,2}, chunks {1,2}, both layouts
+    for ta in types:
+        for tb in types:
+            for la, lb in ((2, 2), (0, 2), (2, 0)) if tier == 'thorough' else ((2, 2), (0, 2)):
+                for chunks in (1, 2):
+                    out.append(('sq/%s,%s/%d,%d/x%d/contig' % (ta, tb, la, lb, chunks),
+                                [G.seg([(A, _full(ta, la)), (B, _full(tb, lb))], chunks=chunks)]))
+                    if la == lb and ta != 'String' and tb != 'String':
+                        out.append(('sq/%s,%s/%d/x%d/il' % (ta, tb, la, chunks),
+                                    [G.seg([(A, _full(ta, la)), (B, _full(tb, lb))], chunks=chunks, interleaved=True)]))
+    # (2) inheritance histories of depth 2 over one channel plus a companion
+    encs = [['FULL', 'Int32', 2], ['FULL', 'Int32', 1], ['SAME'], ['NODATA'], None]
+    for e1 in encs[:2]:
+        for newlist in (True, False):
+            for e2 in encs:
+                for tail in (None, 'nometa'):
+                    objs2 = [(B, ['FULL', 'Int16', 3])] + ([(A, e2)] if e2 else [])
+                    h = [G.seg([(A, e1), (B, ['FULL', 'Int16', 3])], chunks=2), G.seg(objs2, newlist=newlist, chunks=1)]
+                    if tail:
+                        h.append(G.seg([], meta=False, chunks=2))
+                    out.append(('inh/%s/%s/%s/%s' % (e1[2], 'new' if newlist else 'app', e2[0] if e2 else 'unlisted', tail), h))
+    # (3) DAQmx
+    if daqmx:
+        for nb in (1, 2):
+            widths = [8] if nb == 1 else [8, 4]
+            for chunks in (1, 2):
+                a = daqmx_enc(2, [(5, 0, 2, 0, 0), (2, 0, 6, 0, 1)], widths)
+                b = daqmx_enc(2 if nb == 1 else 3, [(3, nb - 1, 0, 0, 0)], widths)
+                out.append(('daqmx/%d/x%d' % (nb, chunks),
+                            [G.seg([(A, a, DAQMX_SCALE_PROPS), (B, b, [_uprop('NI_Number_Of_Scales', 1)])], chunks=chunks),
+                             G.seg([], meta=False, chunks=1)]))
+    # (4) scaled
+    if scaled:
+        lin = [_uprop('NI_Number_Of_Scales', 1), _sprop('NI_Scale[0]_Scale_Type', 'Linear'),
+               _dprop('NI_Scale[0]_Linear_Slope', 0.5), _dprop('NI_Scale[0]_Linear_Y_Intercept', -3.0)]
+        for t in ('Int16', 'Uint32', 'DoubleFloat', 'Int64'):
+            out.append(('scaled/linear/%s' % t, [G.seg([(A, _full(t, 3), lin), (B, _full('Int8', 1))], chunks=2)]))
+        two = [_uprop('NI_Number_Of_Scales', 2), _sprop('NI_Scale[0]_Scale_Type', 'Polynomial'),
+               _uprop('NI_Scale[0]_Polynomial_Coefficients_Size', 3), _dprop('NI_Scale[0]_Polynomial_Coefficients[0]', 1.0),
+               _dprop('NI_Scale[0]_Polynomial_Coefficients[1]', 2.0), _dprop('NI_Scale[0]_Polynomial_Coefficients[2]', 0.5),
+               _uprop('NI_Scale[0]_Polynomial_Input_Source', 0xFFFFFFFF),
+               _sprop('NI_Scale[1]_Scale_Type', 'Linear'), _dprop('NI_Scale[1]_Linear_Slope', 2.0),
+               _dprop('NI_Scale[1]_Linear_Y_Intercept', 1.0), _uprop('NI_Scale[1]_Linear_Input_Source', 0)]
+        out.append(('scaled/two-deep', [G.seg([(A, _full('Int16', 3), two), (B, _full('Int8', 1))], chunks=2)]))
+    # (5) specials
+    out.append(('special/no-data-type', [G.seg([(A, ['NODATA']), (B, _full('Int16', 2))])]))
+    out.append(('special/zero-length', [G.seg([(A, _full('Int32', 0)), (B, _full('Int16', 2))])]))
+    out.append(('special/zero-length-string', [G.seg([(A, ['FULL', 'String', 0, 0]), (B, _full('Int16', 2))])]))
+    out.append(('special/zero-length-ts', [G.seg([(A, _full('TimeStamp', 0)), (B, _full('Int16', 2))])]))
+    out.append(('special/group-without-channels', [G.seg([("/'empty'", ['NODATA']), (A, _full('Int32', 2))])]))
+    out.append(('special/no-group-object', [G.seg([(C, _full('Int32', 2)), (A, _full('Int16', 1))])]))
+    out.append(('special/ts-be', [G.seg([(A, _full('TimeStamp', 2)), (B, _full('Int16', 2))], chunks=2, big=True)]))
+    out.append(('special/ts-mixed', [G.seg([(A, _full('TimeStamp', 2))], chunks=1, big=True), G.seg([(A, _full('TimeStamp', 3))])]))
+    out.append(('special/strings', [G.seg([(A, ['FULL', 'String', 3, 0])]), G.seg([(A, ['FULL', 'String', 2, 9])], chunks=2)]))
+    out.append(('special/padding', [G.seg([(A, _full('Int32', 2)), (B, _full('Int16', 1))], pad=3, chunks=2),
+                                    G.seg([(A, ['SAME'])], newlist=False, pad=5)]))
+    out.append(('special/many-segments', [G.seg([(A, _full('Int32', 1)), (B, _full('Int16', 2))])] +
+                [G.seg([], meta=False, chunks=1 + (i % 2)) for i in range(7)]))
+    return out
